@@ -57,20 +57,20 @@ func plan(tier string) []family {
 		return []family{
 			{"valid histories and single perturbations, N<=4 commits, all content patterns", "G", 96, perturbFamily(1, 4, all, all)},
 			{"full cross product of clock options, N<=4 commits, all content patterns (mockRepo)", "M", 512, fullFamily(4, all)},
-			{"valid histories (content patterns 0, 1) and single perturbations (pattern 1), N=5 commits", "G", 96, perturbFamily(5, 5, []int{0, 1}, []int{1})},
 			{"valid histories and single perturbations, N=5 commits, all content patterns (mockRepo)", "M", 512, perturbFamily(5, 5, all, all)},
+			{"valid histories (content patterns 0, 1) and single perturbations (pattern 1), N=5 commits", "G", 96, perturbFamily(5, 5, []int{0, 1}, []int{1})},
 		}
 	}
 	return []family{
 		{"valid histories and single perturbations, N<=5 commits, all content patterns", "G", 96, perturbFamily(1, 5, all, all)},
-		{"full cross product of clock options, N<=4 commits, content patterns 0 and 1", "G", 96, fullFamily(4, []int{0, 1})},
 		{"full cross product of clock options, N<=4 commits, content patterns 2 and 3 (mockRepo)", "M", 512, fullFamily(4, []int{2, 3})},
+		{"valid histories (content patterns 0, 1) and single perturbations (pattern 1), N=6 commits (mockRepo)", "M", 512, perturbFamily(6, 6, []int{0, 1}, []int{1})},
+		{"full cross product of clock options, N<=4 commits, content patterns 0 and 1", "G", 96, fullFamily(4, []int{0, 1})},
 		{"full cross product of clock options, N=5 commits, content patterns 0 and 1 (mockRepo)", "M", 512, func(emit func(Spec)) {
 			for _, sh := range Shapes(5) {
 				Full(sh, []int{0, 1}, emit)
 			}
 		}},
-		{"valid histories (content patterns 0, 1) and single perturbations (pattern 1), N=6 commits (mockRepo)", "M", 512, perturbFamily(6, 6, []int{0, 1}, []int{1})},
 	}
 }
 
